@@ -206,13 +206,16 @@ def scoped(ids, D):
                     st['skip'] = 1
                 elif op == 221:
                     st['dnp'] = y
-                elif op in (222, 223, 224, 225, 232, 235, 236, 237):
-                    if not top and not (y == 255 and op in (223, 224, 225, 232)):
-                        return False
+                elif op == 235:
+                    st['bm'] = 0
+                elif op in (222, 223, 224, 225, 232, 236, 237):
+                    if not (y == 255 and op in (223, 224, 225, 232)):
+                        # a bitmap construct opened inside a replication body must be closed (235000) in that body
+                        st['bm'] = 1
         return True
 
     ex = expand(list(ids))
     if ex is None:
         return False
-    st = {201: 0, 202: 0, 203: 0, 204: 0, 207: 0, 208: 0, 'ref': 0, 'skip': 0, 'dnp': 0}
+    st = {201: 0, 202: 0, 203: 0, 204: 0, 207: 0, 208: 0, 'ref': 0, 'skip': 0, 'dnp': 0, 'bm': 0}
     return walk(ex, st, True)
